@@ -165,6 +165,14 @@ CLAIMED = {
         "in Coq. What the model cannot exhibit: convergence to s2 (1 - p/n) and slope/offset recovery of variance_stokes_linear - sampling support only.",
    ref="5/C10", note=TB + "Powell (scipy.optimize.minimize) and LSQR are judged on their output; statistical clauses are not theorems.",
    technique="Coq proof of placement / permutation / scaling laws + planted-noise conformance"),
+ "C17": dict(
+   text="PARTIAL. Proof (dataflow): for every sequence of calibrations, Monte Carlo runs and store/load cycles the definitions reported by .dts.sections, "
+        ".dts.matching_sections and the trans_att coordinate are those passed to the most recent calibration - under two explicit hypotheses: the serialiser "
+        "round-trips (yaml.load(yaml.dump(v)) = v) and attribute strings survive file storage. The correspondence check is where these hypotheses are "
+        "checked: real calibrate_* / monte_carlo_* / to_netcdf / open_dataset runs on seeded inputs with int, float, np.float32/64, np.int64 bounds, 0-2 "
+        "matching pairs of either direction flag, 0-2 splices; equality of definitions, coordinates and data across the file round trip.",
+   ref="5/C17", note=TB + "PyYAML and netCDF4 are runtime libraries the model cannot exhibit; yaml.dump sorts dictionary keys, so definitions are compared as "
+        "Python dictionaries (key order carries no information, C18).", technique="Coq proof of the dataflow under explicit round-trip hypotheses + real serialiser/file round trips"),
 }
 NA = {}
 ALL = [f"C{i:02d}" for i in range(1, 21)]
